@@ -455,6 +455,8 @@ def h_run(ctx):
         spy.wrap(CallbackOutput, "get_data", before=mon.before_cb_get_data)
         spy.wrap(Adapter, "finalize", after=mon.after_finalize)
         try:
+            if p.get("vary_connect") and ctx.flag("explicit_connect"):
+                composition.connect()  # user calls connect() first, run() must then skip it
             composition.run(end_time=end)
         except FinamCircularCouplingError:
             outcome = "circular"
